@@ -378,7 +378,11 @@ impl World {
                 return "WFuel".into();
             }
             let mut any = false;
-            if self.chan.is_some() && !self.ended && self.swaker.woken() {
+            let alt = ALT_ORDER.load(std::sync::atomic::Ordering::Relaxed);
+            // phase 0 = the Requests stream, phase 1 = the execute() futures; the alternative schedule
+            // polls the woken execute() futures first, in descending index order, and the stream last
+            for phase in if alt { [1, 0] } else { [0, 1] } {
+            if phase == 0 && self.chan.is_some() && !self.ended && self.swaker.woken() {
                 any = true;
                 self.swaker.take();
                 self.ctl.reset_budget();
@@ -470,7 +474,9 @@ impl World {
                     }
                 }
             }
-            for k in 0..self.execs.len() {
+            let nex = if phase == 1 { self.execs.len() } else { 0 };
+            for j in 0..nex {
+                let k = if alt { nex - 1 - j } else { j };
                 let woken = self.execs[k].fut.is_some() && self.execs[k].waker.woken();
                 if !woken {
                     continue;
@@ -526,6 +532,7 @@ impl World {
                     }
                 }
             }
+            }
             if !any {
                 break;
             }
@@ -552,6 +559,10 @@ impl Drop for World {
         vclock::off();
     }
 }
+
+/// `srvw run --order alt`: the second fair schedule of the wake-driven server driver (C02, part
+/// server-wake-alt)
+pub static ALT_ORDER: std::sync::atomic::AtomicBool = std::sync::atomic::AtomicBool::new(false);
 
 pub fn run_impl(s: &WScript) -> (Vec<String>, Vec<String>) {
     let mut w = World::new(&s.cfg);
